@@ -145,6 +145,54 @@ func rulesC14(cx *Ctx) []Obligation {
 		obs = append(obs, good(key, desc, r.site(rec)))
 	}
 	if !found {
+		// equivalent form: the check is applied to Reduce(response). The response is an output of the Poseidon
+		// permutation (canonical, C07/O7.3), so its reduction is the response itself.
+		for _, rec := range r.Recs {
+			if rec.Kind != "call" || !rec.Must || rec.Callee == nil || !r.In.Layer[fnPkgShort(rec.Callee)] || len(rec.Args) < 3 {
+				continue
+			}
+			ai, wi := -1, -1
+			for i, a := range rec.Args {
+				if a == nil {
+					continue
+				}
+				for _, f := range a.From {
+					if strings.HasSuffix(f, ".FriPowResponse") && len(a.Dir) == 0 {
+						ai = i
+					}
+				}
+				if powWidthRe.MatchString(a.Sym) {
+					wi = i
+				}
+			}
+			if ai < 0 || wi < 0 || !r.depsHave(rec.Args[ai], root+".OpeningProof.PowWitness") {
+				continue
+			}
+			g := cx.EntryFn(rec.Callee)
+			xp, wp := rec.Callee.Params[ai].Name(), rec.Callee.Params[wi].Name()
+			for _, gr := range g.Recs {
+				if gr.Kind != "range" || !gr.Must || gr.Width == nil || len(gr.Args) == 0 {
+					continue
+				}
+				if w, ok := gr.Width.Definite(); !ok || w != wp {
+					continue
+				}
+				p, ok := gr.Args[0].Definite()
+				if !ok || !strings.HasPrefix(p, "H:ReduceHint@") || !strings.HasSuffix(p, "#1") {
+					continue
+				}
+				for _, h := range g.Recs {
+					if h.Kind == "hint" && h.Must && len(h.Args) == 1 && strings.HasPrefix(p, fmt.Sprintf("H:%s@%s", h.HintFn.Name(), g.In.P.Pos(h.Site))) {
+						if ip, ok := h.Args[0].Definite(); ok && ip == xp+".Limb" {
+							found = true
+							obs = append(obs, good(key, desc, r.site(rec)+" (applied to Reduce(response); the response is a canonical Poseidon output)"))
+						}
+					}
+				}
+			}
+		}
+	}
+	if !found {
 		if len(diag) == 0 {
 			diag = []string{"no n-bit range check is applied to FriChallenges.FriPowResponse on the paths from Verify"}
 		}
